@@ -29,12 +29,13 @@ type Case struct {
 	Cache       string   `json:"cache"` // empty | complete | subset:<mask>
 	Cap         int      `json:"cap"`   // multiplicity cap of idempotent messages in the state key (0 = exact)
 	extra       bool     // added by the thorough tier: explored after everything the quick tier explores
+	LateLoader  bool     `json:"late_loader,omitempty"`  // with partial_wins: the losing full-snapshot load completes during a later merge of the same module
 	PartialWins bool     `json:"partial_wins,omitempty"` // squasher load race: the partial wins although the full snapshot exists
 	Path        []string `json:"path,omitempty"`         // artefact: the event path to replay
 }
 
 func (c Case) String() string {
-	return fmt.Sprintf("%s seg=%d prod=%v [%d,%d) final=%d workers=%d cache=%s cap=%d", c.Prog, c.Seg, c.Prod, c.Start, c.Stop, c.Final, c.Workers, c.Cache, c.Cap) + map[bool]string{true: " partial-wins", false: ""}[c.PartialWins]
+	return fmt.Sprintf("%s seg=%d prod=%v [%d,%d) final=%d workers=%d cache=%s cap=%d", c.Prog, c.Seg, c.Prod, c.Start, c.Stop, c.Final, c.Workers, c.Cache, c.Cap) + map[bool]string{true: " partial-wins", false: ""}[c.PartialWins] + map[bool]string{true: " late-loader", false: ""}[c.LateLoader]
 }
 
 var programs = map[string]func() *progs.Prog{
@@ -58,7 +59,7 @@ func buildConfig(c Case) (*schedx.Config, *progs.Prog, error) {
 		return nil, nil, fmt.Errorf("unknown program %q", c.Prog)
 	}
 	p := mk()
-	cfg := &schedx.Config{Modules: p.Modules, Output: p.Output, Prod: c.Prod, Seg: c.Seg, Start: c.Start, Stop: c.Stop, Final: c.Final, Workers: c.Workers, Cap: c.Cap, PartialWins: c.PartialWins}
+	cfg := &schedx.Config{Modules: p.Modules, Output: p.Output, Prod: c.Prod, Seg: c.Seg, Start: c.Start, Stop: c.Stop, Final: c.Final, Workers: c.Workers, Cap: c.Cap, PartialWins: c.PartialWins, LateLoader: c.LateLoader}
 	if c.Cache == "partials" || c.Cache == "partials-seg0" {
 		// the cache a crash leaves between the completion of the jobs and their merges: the partial store files (of every
 		// segment, or of the first one only), no full snapshot, no mapper output
@@ -156,8 +157,50 @@ func buildConfig(c Case) (*schedx.Config, *progs.Prog, error) {
 	return cfg, p, nil
 }
 
+// refDumps: sequential reference content of every store of a program at every block, computed once per program.
+var refMu sync.Mutex
+var refDumps = map[string]map[string]map[uint64]string{}
+
+func refDump(p *progs.Prog, upTo uint64) map[string]map[uint64]string {
+	refMu.Lock()
+	defer refMu.Unlock()
+	key := fmt.Sprintf("%s/%d", p.Name, upTo)
+	if d, ok := refDumps[key]; ok {
+		return d
+	}
+	d := map[string]map[uint64]string{}
+	it, err := script.NewInterp(p.Modules, p.Output)
+	if err == nil {
+		for name := range it.Stores {
+			d[name] = map[uint64]string{}
+		}
+		for n := it.LowestInit(); n < upTo; n++ {
+			it.Step(script.Blk{Num: n, ID: sysrun.BlockID(n)})
+			for name := range it.Stores {
+				d[name][n+1] = it.StoreDump(name) // content after block n = the store "at" n+1
+			}
+		}
+	}
+	refDumps[key] = d
+	return d
+}
+
 func oracle(c Case, p *progs.Prog) schedx.Oracle {
-	return schedx.Oracle{Terminal: func(w *schedx.World) string {
+	return schedx.Oracle{Every: func(w *schedx.World) string {
+		// the store the squasher keeps in memory between merges is labelled with a block: it must hold what a
+		// sequential execution holds at that block (FinalStoreMap and the next merge trust the label)
+		ref := refDump(p, w.Handoff()+1)
+		for name, c := range w.StoreCaches() {
+			want, ok := ref[name][c.Block]
+			if !ok {
+				continue // labelled with the module's initial block or a block the reference does not reach: empty store
+			}
+			if c.Dump != want {
+				return fmt.Sprintf("the squasher's in-memory store of %s is labelled with block %d but holds {%s}; a sequential execution holds {%s} there", name, c.Block, c.Dump, want)
+			}
+		}
+		return ""
+	}, Terminal: func(w *schedx.World) string {
 		H := w.Handoff()
 		// streamed outputs: exactly the reference outputs of [start, min(H, stop)) once, in order
 		end := H
@@ -273,6 +316,8 @@ func classify(v string) string {
 		return "merge-order"
 	case strings.Contains(v, "jobs in flight"):
 		return "too-many-jobs"
+	case strings.Contains(v, "in-memory store of"):
+		return "in-memory-store-mislabelled"
 	case strings.Contains(v, "store "):
 		return "stores-at-hand-off"
 	case strings.Contains(v, "streamed"):
@@ -437,6 +482,9 @@ func Run(ctx *core.Ctx) int {
 		fmt.Sscan(spec, &c.Prog, &c.Seg, &c.Prod, &c.Start, &c.Stop, &c.Final, &c.Workers, &c.Cache)
 		c.Cap = capDefault
 		_, c.PartialWins = ctx.Args["partial-wins"]
+		if _, c.LateLoader = ctx.Args["late-loader"]; c.LateLoader {
+			c.PartialWins = true
+		}
 		cases = []Case{c}
 	}
 	// every cache state of a C07 universe (files of a complete run + partials of jobs run alone)
@@ -466,7 +514,34 @@ func Run(ctx *core.Ctx) int {
 			small = append(small, Case{Prog: sw.prog, Seg: sw.seg, Prod: prod, Start: sw.start, Stop: sw.stop, Final: sw.final, Workers: 2, Cache: fmt.Sprintf("c07mask:%d", mask), Cap: capDefault, extra: si > 1})
 			if ctx.Thorough() || si == 1 {
 				small = append(small, Case{Prog: sw.prog, Seg: sw.seg, Prod: prod, Start: sw.start, Stop: sw.stop, Final: sw.final, Workers: 2, Cache: fmt.Sprintf("c07mask:%d", mask), Cap: capDefault, extra: si != 1, PartialWins: true})
+				// third outcome: the partial wins and the losing full-snapshot load completes during a later merge
+				if _, no := ctx.Args["no-late"]; !no {
+					small = append(small, Case{Prog: sw.prog, Seg: sw.seg, Prod: prod, Start: sw.start, Stop: sw.stop, Final: sw.final, Workers: 2, Cache: fmt.Sprintf("c07mask:%d", mask), Cap: capDefault, extra: si != 1, PartialWins: true, LateLoader: true})
+				}
 			}
+		}
+	}
+	// the late-loader outcome needs two consecutive merges of one store, the first with both its partial and its full
+	// snapshot in the cache: samestage-0-3-0 (the two stores share whole segments). Quick: every cache state of its C07
+	// universe in which both files of the first store's first segment are present, late-loader mode only (the thorough
+	// tier sweeps the whole universe in the three modes).
+	if ctx.Args["case"] == "" && ctx.Args["only"] == "" {
+		sh := c07.Shape{Prog: "samestage-0-3-0", Seg: 4, Prod: false, Start: 9, Stop: 11, Final: -1}
+		names, _, err := c07.Universe(sh)
+		if err != nil {
+			ctx.Violation(core.Failf("harness:universe", "%v", err), sh.Prog, 0)
+		}
+		var need uint64
+		for i, n := range names {
+			if strings.Contains(n, "/states/0000000004-0000000000.") {
+				need |= 1 << uint(i)
+			}
+		}
+		for mask := uint64(0); need != 0 && mask < 1<<uint(len(names)); mask++ {
+			if mask&need != need {
+				continue
+			}
+			small = append(small, Case{Prog: sh.Prog, Seg: sh.Seg, Prod: false, Start: sh.Start, Stop: sh.Stop, Final: sh.Final, Workers: 2, Cache: fmt.Sprintf("c07mask:%d", mask), Cap: capDefault, PartialWins: true, LateLoader: true})
 		}
 	}
 	deadline := time.Now().Add(budget)
@@ -546,14 +621,19 @@ func Run(ctx *core.Ctx) int {
 				o := explore(c, 0, time.Until(deadline), 2)
 				account(c, o, false)
 				amu.Lock()
-				sweepStates[fmt.Sprintf("%s seg=%d [%d,%d)%s: all cache states of the C07 universe", c.Prog, c.Seg, c.Start, c.Stop, map[bool]string{true: " partial-wins", false: ""}[c.PartialWins])] += o.res.States
+				sweepStates[fmt.Sprintf("%s seg=%d [%d,%d)%s: all cache states of the C07 universe", c.Prog, c.Seg, c.Start, c.Stop, map[bool]string{true: " partial-wins", false: ""}[c.PartialWins]+map[bool]string{true: " late-loader", false: ""}[c.LateLoader])] += o.res.States
 				amu.Unlock()
 			}(c)
 		}
 		wg.Wait()
 	}
 	// everything the quick tier explores comes first, then the thorough tier's additions
+	if _, so := ctx.Args["sweeps-only"]; so {
+		cases = nil
+	}
+	t0 := time.Now()
 	runCases(false)
+	ctx.Cov["wall_s_grid_configurations"] = time.Since(t0).Seconds()
 	runSweeps(false)
 	if ctx.Thorough() {
 		runCases(true)
@@ -573,6 +653,8 @@ func Run(ctx *core.Ctx) int {
 	ctx.Cov["memoised_job_replays"] = hits
 	ctx.Cov["max_depth"] = maxDepth
 	ctx.Cov["squasher_load_races_decided"] = atomic.LoadInt64(&schedx.RacesDecided)
+	ctx.Cov["late_full_snapshot_loads_completed_during_a_later_merge"] = atomic.LoadInt64(&schedx.LateReleased)
+	ctx.Cov["late_loads_not_placed"] = atomic.LoadInt64(&schedx.LateUnsettled)
 	ctx.Cov["configurations"] = len(cases)
 	ctx.Cov["per_configuration"] = perCfg
 	ctx.Cov["evaluations"] = len(cases)
